@@ -170,6 +170,9 @@ pub trait GenObj: Send {
     fn finalize_setters(&self, seq: &[(u8, bool)]) -> Result<H, GErr>;
     fn processed_len(&self) -> Option<u32>;
     fn boxed_clone(&self) -> Box<dyn GenObj>;
+    /// `Clone::clone_from`: a generator that was first fed `pre` (any state) and is then
+    /// overwritten by `dst.clone_from(self)`.
+    fn boxed_clone_from(&self, pre: &[u8]) -> Box<dyn GenObj>;
     /// Hook: read the state back (None without hooks).
     fn state(&self) -> Option<GenState>;
 }
